@@ -87,6 +87,10 @@ class IndexSum(Operator):
     def _simplify_indexed(self, multiindex):
         """Return a simplified Expr used in the constructor of Indexed(self, multiindex)."""
         A, i = self.ufl_operands
+        if i[0] in multiindex.indices():
+            # Moving the indexing inside the sum would capture the (reused)
+            # summation index, e.g. (sum_i A[i, i, :])[i]: keep Indexed(IndexSum).
+            raise NotImplementedError
         return IndexSum(Indexed(A, multiindex), i)
 
     def evaluate(self, x, mapping, component, index_values):
